@@ -47,7 +47,7 @@ TrScenario == Is("Scenario") /\ good' = NoCfg /\ nscen' = nscen + 1 /\ cfgAt' = 
 TrLoad == /\ Is("Load")
           /\ LET c == E.cfg
                  expOk == IF c.kind = "stop" THEN TRUE
-                          ELSE IF c.kind # "ok" THEN FALSE
+                          ELSE IF ~Loadable(c) THEN FALSE
                           ELSE Run(c, 1, {}, ToSet(E.frn)).ok IN
              /\ Flag(IF E.ok # expOk THEN {"load-result"} ELSE {})
              /\ good' = IF c.kind = "stop" THEN NoCfg ELSE IF expOk THEN c ELSE good
